@@ -17,32 +17,71 @@ def session_bufsize():
         raise rust_abi.TranslateError('session buffer size expression not found')
     return int(a.group(1)) * 4096 + int(b.group(1), 0)
 
-def gen_init_cases(rng, n):
+TRANSPORTS = ('fusedev', 'virtio', 'chan')
+GRID_MINORS = (0, 4, 5, 12, 22, 23, 35, 36, 40)
+
+def gen_init_cases(rng, n, mask):
+    """deterministic blocks first (every shape of the request the handler distinguishes), then random requests.
+    blocks:  G0 legacy clients with the 24-byte reply (minor 5, 12, 22) on the three reply capacities;
+             G1 minor x form grid: {no marker, marker} x {no tail, 48-byte tail, 47-byte tail, 60-byte tail};
+             G2 every capability bit alone: offered alone (want = all) and wanted alone (offered = all);
+             G3 major mismatch x form;  G4 filesystem refuses init;  G5 an earlier INIT negotiated an old minor;
+    transports rotate over fusedev / virtio / the real channel; every third case installs the metrics hook
+    (on_init_params must not change the reply)."""
     cases = []
-    for i in range(n):
-        q = S.gen_wf(rng, 26)
-        c = rng.random()
-        if c < 0.08: q['fields']['major'] = rng.choice([0, 1, 6])
-        elif c < 0.16: q['fields']['major'] = rng.choice([8, 9, 100, (1 << 32) - 1])
-        if i < 9:
-            # always present: legacy clients that get the 24-byte reply (5 <= minor < 23), both ends and the middle
-            # (a seeded panic in that reply branch was caught through these)
-            q['fields']['major'] = 7; q['fields']['minor'] = (5, 12, 22)[i % 3]
-            q['fields']['flags'] &= ~(1 << 30); q['flags2'] = None
-        coherent = True
-        if q['fields']['flags'] & (1 << 30) and q['fields']['minor'] < 36:
-            if rng.random() < 0.7: q['fields']['minor'] = rng.choice([36, 37, 38, 39, 40])
-            else: coherent = False
+    low = mask & 0xffffffff; high = mask >> 32; EXT = 1 << 30
+    def add(major, minor, flags, f2, tail_len, want, fs=None, cap=4096, prior=None, coherent=True, q=None, tr=None):
+        i = len(cases)
+        q = q or S.gen_wf(rng, 26)
+        q['fields'].update(major=major, minor=minor, flags=flags, _want=want)
+        # the 7.36 extension is `present` for the client-side reading iff the whole InitIn2 (48 bytes) is there
+        q['flags2'] = f2 if (f2 is not None and tail_len >= 48) else None
         q['coherent'] = coherent
-        # rebuild bytes with the adjusted fields
         body = S.enc_struct('fuse_init_in', q['fields'], S.COMPAT['fuse_init_in'])
-        tb = b'' if q.get('flags2') is None else struct.pack('<I', q['flags2']) + bytes(44)
+        tb = (struct.pack('<I', f2 or 0) + bytes(60))[:tail_len]
         h = q['hdr']
         q['bytes'] = S.in_header(40 + len(body) + len(tb), 26, h['unique'], h['nodeid'], h['uid'], h['gid'], h['pid']) + body + tb
-        fs = ('init', q['fields']['_want']) if (i < 9 or rng.random() < 0.9) else S.gen_fs(rng, 'err', 26, {})
-        q['fs'] = fs
-        cases.append(S.make_case(rng, i, q['bytes'], fs, q, cap=((4096, 1 << 17, 80)[i // 3] if i < 9 else rng.choice([4096, 1 << 17, 80, 40, 24, 23])), remap=(0, 0), minor=None, vu=False))
-    return cases
+        q['fs'] = fs or ('init', want)
+        c = S.make_case(rng, i, q['bytes'], q['fs'], q, transport=tr or TRANSPORTS[i % 3], cap=cap, remap=(0, 0), minor=prior, vu=False)
+        if prior is None: c['minor'] = None
+        if i % 3 == 2: c['hook'] = True
+        cases.append(c)
+    ALLW = (1 << 64) - 1
+    for k in range(9):                                                     # G0
+        add(7, (5, 12, 22)[k % 3], rng.getrandbits(32) & ~EXT, None, 0, rng.getrandbits(64), cap=(4096, 1 << 17, 80)[k // 3], tr=TRANSPORTS[k % 3] if k // 3 != 2 else 'fusedev')
+    forms = ((0, None, 0), (0, 0xffffffff, 48), (EXT, None, 0), (EXT, 0xffffffff, 48), (EXT, 0xffffffff, 47), (EXT, 0xffffffff, 60))
+    for minor in GRID_MINORS:                                              # G1
+        for ext, f2, tl in forms:
+            add(7, minor, (0xffffffff & ~EXT) | ext, f2, tl, ALLW)
+    for b in range(64):                                                    # G2
+        add(7, 36, 0xffffffff, 0xffffffff, 48, 1 << b)                     #   wanted alone, everything offered
+        if b < 32: add(7, 33 if b != 30 else 36, 1 << b, None, 0, ALLW)    #   offered alone (bit 30 = the marker without its tail)
+        else: add(7, 38, EXT, 1 << (b - 32), 48, ALLW)
+    for major in (0, 6, 8, (1 << 32) - 1):                                 # G3
+        add(major, 31, low & ~EXT, None, 0, ALLW)
+        add(major, 38, low | EXT, high, 48, ALLW)
+    for minor in (4, 22, 36):                                              # G4
+        add(7, minor, low & ~EXT, None, 0, 0, fs=('err', 'os', 13))
+        add(7, minor, low | EXT, high, 48, 0, fs=('err', 'kind', 6))
+    for prior in (3, 4, 12):                                               # G5
+        add(7, 38, low | EXT, high, 48, ALLW, prior=prior)
+    ndet = len(cases)
+    while len(cases) < max(n, ndet + 60):                                  # random requests
+        q = S.gen_wf(rng, 26)
+        f = q['fields']; major = f['major']
+        c = rng.random()
+        if c < 0.08: major = rng.choice([0, 1, 6])
+        elif c < 0.16: major = rng.choice([8, 9, 100, (1 << 32) - 1])
+        minor = f['minor']; coherent = True
+        if f['flags'] & EXT and minor < 36:
+            if rng.random() < 0.7: minor = rng.choice([36, 37, 38, 39, 40])
+            else: coherent = False
+        f2 = q.get('flags2')
+        tl = 0 if f2 is None else (48 if rng.random() < 0.85 else rng.choice([1, 4, 47, 49, 60]))
+        fs = ('init', f['_want']) if rng.random() < 0.9 else S.gen_fs(rng, 'err', 26, {})
+        add(major, minor, f['flags'], f2, tl, f['_want'], fs=fs, cap=rng.choice([4096, 1 << 17, 80, 40, 24, 23]),
+            prior=rng.choice([None, None, None, 3, 4, 33]), coherent=coherent, q=q, tr=rng.choice(['fusedev', 'fusedev', 'virtio', 'chan']))
+    return cases, ndet
 
 def run_check(tier, seed):
     ev = Evidence(PROP, tier, seed)
@@ -68,11 +107,12 @@ def run_check(tier, seed):
     ph['build'] = round(_t.time() - t0, 1)
     rng = random.Random(seed)
     n = 300 if tier == 'quick' else 6000
-    cases = gen_init_cases(rng, n)
+    mask = S.fsopt_mask()
+    cases, ndet = gen_init_cases(rng, n, mask)
+    ev.cov['deterministic_init_cases'] = ndet
     rc, obs, raw = S.run_impl(cases, bindir=bindir)
     if rc != 0 or len(obs) != len(cases): broken.append({'kind': 'harness-run', 'log': raw[-1500:]})
     ph['impl'] = round(_t.time() - t0, 1)
-    mask = S.fsopt_mask()
     exprs = []; meta = []; nontriv = set(); hist = collections.Counter()
     for c in cases:
         o = obs.get(c['id'])
@@ -98,7 +138,7 @@ def run_check(tier, seed):
     ok2, out2 = coq_make(['Spec/Init.vo', 'Model/ServerCmp.vo'])
     if not ok2: broken.append({'kind': 'proof', 'name': 'Spec build', 'site': coq_error_site(out2)})
     hdr = S.SPEC_HEADER.replace('Spec.Replies.', 'Spec.Replies Spec.Init.')
-    fails, errs = coq_check_cases('c12spec', hdr, exprs, shard=(100 if tier == 'quick' else 60))
+    fails, errs = coq_check_cases('c12spec', hdr, exprs, shard=45)
     if errs: broken.append({'kind': 'spec-eval', 'log': errs[0]})
     for i in fails:
         c = meta[i]; o = obs[c['id']]; q = c['wf']
